@@ -16,7 +16,8 @@ RULE = ('sources: (a) LUAGEN programs of the dialect in random layouts (comments
         '(Lua.to_lines(); for unparseable soups the same LuaEchoWriter over the lexer\'s tokens). Oracle: REFLEX(out) '
         'and REFLEX(src) have the same token sequence including blanks, line ends and comments; every non-string '
         'token has identical bytes; every string literal denotes the same byte string. Non-trivial = the source '
-        'has a string literal with an escape or a byte >= 0x80, or a multi-line token; distinct by source.')
+        'has a string literal with an escape or a byte >= 0x80, or a multi-line token; distinct by source.'
+        ' After the chunkings, the default writer is run once more on a Lua object on which another writer (PureLuaWriter, LuaMinifyTokenWriter, LuaFormatterWriter, LuaASTEchoWriter) has just produced output: it must still echo the source. Part "starts" puts every representative atom (incl. glyph names equal to Unicode byte-order marks) first and last in a source.')
 ASSUMPTIONS = ['lexical rules are represented by vlib/reflex.py; sources it rejects are out of domain (counted)',
                'levelled long comments --[=[ ]=] are not asserted (see C07)']
 LEVEL_TEXT = ('Exploration: generated programs and adversarial string literals echoed through the default writer and '
